@@ -187,7 +187,11 @@ class ABI:
 
         for read in constraints.reads_registers:
             reg = self.get_register(read)
-            available_scratch_registers.remove(reg)
+            # It may already be gone: the register can also be clobbered,
+            # may have been named twice (e.g. as "rax" and "eax"), or is not
+            # a scratch register candidate on this ABI to begin with.
+            if reg in available_scratch_registers:
+                available_scratch_registers.remove(reg)
 
         if constraints.scratch_registers > len(available_scratch_registers):
             raise ValueError("unable to allocate enough scratch registers")
